@@ -933,6 +933,13 @@ def run_tx_case(case, ctx):
                 _chk(ctx, "twin.chromosome-answers", e is None and r is True, key=("tx", "cds-kept-when-sliced-out"), label=label, window=[cs, ce], exc=_exc(e))
                 if tx.cds is not None:
                     check_location(ctx, "tx.cds", label, tx.cds, M.blocks, strand, cs, ce)
+                    # two routes to the same chunk-relative export: the transcript's CDS fields and its CDS's own dictionary
+                    da, db = ctx.call(tx.to_dict, chromosome_relative_coordinates=False), ctx.call(tx.cds.to_dict, chromosome_relative_coordinates=False)
+                    if da[1] is None and db[1] is None:
+                        a3 = [da[0].get("cds_starts"), da[0].get("cds_ends"), da[0].get("cds_frames")]
+                        b3 = [db[0].get("cds_starts"), db[0].get("cds_ends"), db[0].get("cds_frames")]
+                        _chk(ctx, "twin.chromosome-answers", a3 == b3, key=("tx", "chunk-relative-dict", "cds-fields-vs-cds-dict"), label=label, window=[cs, ce],
+                             transcript=a3, cds=b3)
         if coding and "cds" in built:
             check_location(ctx, "cds", label, built["cds"], M.blocks, strand, cs, ce)
             if model_ok:
